@@ -16,6 +16,7 @@ the placement-cache fingerprint and the "populated" bits of every lazy summary. 
 from __future__ import annotations
 
 import itertools
+import collections
 import hashlib
 
 import cirq
@@ -270,8 +271,9 @@ def build_events(level):
             for ix in pair_idx:
                 ev.append(("insert", ix, si, (x, y)))
     # (op, Moment, op) triples and op triples on the conflict core
-    trip = [(0, 13, 3), (3, 14, 0), (5, 13, 8), (0, 3, 1), (5, 8, 6), (8, 9, 5), (3, 4, 3), (0, 0, 0), (5, 6, 5)]
-    for t in trip if full else trip[:4]:
+    trip = [(0, 13, 3), (3, 14, 0), (5, 13, 8), (0, 3, 1), (5, 8, 6), (8, 9, 5), (3, 4, 3), (0, 0, 0), (5, 6, 5),
+            (13, 1, 0), (14, 0, 0), (13, 15, 2)]  # Moment first / two Moments: exercises the returned index after a Moment
+    for t in trip if full else trip[:4] + trip[-3:]:
         for si in range(5):
             ev.append(("append", si, t))
             for ix in ("0", "1", "len") if full else ("1",):
@@ -680,11 +682,17 @@ def check_insert(before, after, info, ret):
         if not okm:
             return (f"placement: single op {opkey(op)} inserted at {k} with {strat} into {[[opkey(o) for o in ms] for ms in before]} "
                     f"gave {got_model}")
-    # returned index sanity for all inserts
+    # returned index for all inserts: "the insertion index that will place operations just after the operations that
+    # were inserted" => nothing inserted sits at or after it: what is found there are pre-existing operations only
     if ret is not None and "functional" not in info:
-        landed = [i for i, ms in enumerate(after)]
         if not (0 <= ret <= len(after)):
             return f"returned index {ret} outside [0, {len(after)}]"
+        tail = collections.Counter(opkey(o) for ms in after[ret:] for o in ms)
+        old_tail = collections.Counter(opkey(o) for ms in before[min(k, ret):] for o in ms)
+        extra = tail - old_tail
+        if extra:
+            return (f"returned index {ret} is not after everything inserted: moments [{ret}:] hold {sorted(extra.elements())} beyond the "
+                    f"pre-existing operations ({strat} insert at {k} of {[opkey(m) if not isinstance(m, cirq.Moment) else repr(m) for m in mops]})")
     return None
 
 
